@@ -144,9 +144,10 @@ class Ctx:
             cmd += ["-simulate", simulate]
         cmd += (extra or [])
         cmd += [module + ".tla"]
-        env = {}
-        if java_opts:
-            env["JAVA_TOOL_OPTIONS"] = java_opts
+        # TLC leaves an empty tlc-<n> directory per run in java.io.tmpdir: keep it inside the scratch directory
+        jtmp = os.path.join(wd, "jtmp")
+        os.makedirs(jtmp, exist_ok=True)
+        env = {"JAVA_TOOL_OPTIONS": ("-Djava.io.tmpdir=%s %s" % (jtmp, java_opts or "")).strip()}
         t = time.time()
         for attempt in (1, 2):
             rc, out, err = self.run(cmd, cwd=wd, timeout=timeout, env=env)
